@@ -1,8 +1,10 @@
 from .. import facts
-from ..rules import algebra
+from ..rules import algebra, opacity
 
 
 def run(ck):
     P = facts.load()
     ck.not_decided = ('not decided: that alpha-less fetchers really deliver alpha 255 for SIMD fetchers (C10 decides it for the general accessors); that solid/1x1 presentations fetch the same value.')
     algebra.r9_operator_table(ck, P)
+    opacity.r2_opacity_flags(ck, P)
+    opacity.r3_mask_elision(ck, P)
